@@ -115,6 +115,20 @@ func Writers(p Program) map[string]map[int]bool {
 			add("tr", s.Who)
 		case "aadd", "ains", "adel", "amove", "amovefront", "aset", "replArr":
 			add("a", s.Who)
+		case "multi":
+			add("t", s.Who)
+			add("tr", s.Who)
+			add("a", s.Who)
+		case "syncedit":
+			if s.E != "" {
+				es := s
+				es.Op, es.E = s.E, ""
+				for c, ws := range Writers(Program{Cfg: p.Cfg, Steps: []Step{es}}) {
+					for who := range ws {
+						add(c, who)
+					}
+				}
+			}
 		}
 	}
 	return w
@@ -146,7 +160,15 @@ func GuardF10F11(p Program) Guard {
 		}
 		for _, h := range top {
 			switch h.Op.(type) {
-			case *operations.Edit, *operations.Style:
+			case *operations.Style:
+				// style-only stratum: the text content is fixed after the base
+				// state (no Edit anywhere in the program), clients only style
+				// and undo/redo styles - the trigger of F10 (the reverse of a
+				// content edit against a concurrent content edit) cannot occur
+				if len(w["t"]) > 1 && p.Cfg.Flags["styleonly"] != 1 {
+					return Step{}, "F10"
+				}
+			case *operations.Edit:
 				if len(w["t"]) > 1 {
 					return Step{}, "F10"
 				}
@@ -460,6 +482,14 @@ func GuardF33(r *Runner) Guard {
 		if !garbage {
 			return s, ""
 		}
+		// The narrowing below models the re-creation ladder for containers with
+		// ONE writer (its fall-through rung - the operation's own normalised
+		// position - is the same place everywhere only then). With several
+		// writers (serial stratum) a peer may have inserted next to the
+		// tombstones: the coarse rule applies.
+		if w := Writers(r.P); len(w["t"]) > 1 || len(w["tr"]) > 1 {
+			return Step{}, "F33"
+		}
 		// Replicas are in different purge states. The known defect needs the
 		// re-created content to be anchored on something that is NOT its
 		// physical neighbour; where the anchor the ladder will choose on every
@@ -533,10 +563,31 @@ func f33TextAnchorsAdjacent(d *document.Document, parent *time.Ticket, revive []
 		off, n   int
 		dead     bool
 		physical int
+		attrs    map[string]string
 	}
 	var all []piece
 	for i, nd := range tx.Nodes() {
-		all = append(all, piece{key: nd.ID().CreatedAt().Key(), off: nd.ID().Offset(), n: nd.Value().Len(), dead: nd.RemovedAt() != nil, physical: i})
+		all = append(all, piece{key: nd.ID().CreatedAt().Key(), off: nd.ID().Offset(), n: nd.Value().Len(), dead: nd.RemovedAt() != nil, physical: i,
+			attrs: nd.Value().Attrs().Elements()})
+	}
+	// F58: a tombstone keeps receiving styles (a Style / RemoveStyle whose range
+	// spans it physically), a span carries the attributes the text had when it
+	// was removed: where the two differ, in-place revival and re-creation show
+	// different attributes.
+	for _, sp := range revive {
+		for _, pc := range all {
+			if pc.key != sp.CreatedAt.Key() || !pc.dead || pc.off+pc.n <= sp.Start || pc.off >= sp.End {
+				continue
+			}
+			if len(pc.attrs) != len(sp.Attributes) {
+				return false
+			}
+			for k, v := range sp.Attributes {
+				if pc.attrs[k] != v {
+					return false
+				}
+			}
+		}
 	}
 	// spans per insertion, in offset order
 	type rng struct{ a, b int }
